@@ -138,6 +138,15 @@ CHECKS["C19"] = ("model_checking",
     "every model and every caller array is fingerprinted by bit pattern: EvalIsPure, InputsUntouched, FitIsLocal, TemplateUntouched, FitWritesOnlyFittedState, Repeatable, FreshGraphsDisjoint.",
     "TLC; the fingerprint walk (plain functions treated as immutable; TransformedModel._sample cache excluded); global numpy RNG re-seeded before each evaluation",
     "DESIGN.md §4 C19")
+CHECKS["C16"] = ("model_checking",
+    "TLC model checks the rejection sampler's support search (SupportSearch.tla) and the random-number threading of a transformed IFORM computation (Transformed.tla); measured round trips, Jacobians, push-forward densities, samples, Monte-Carlo conditionals and transformed IFORM contours are judged by TLC (Trace_C16.tla, DKW in integer arithmetic)",
+    "Two parts of the property are state-machine statements: 'without truncating tails' (the search as coded violates NoTailTruncation for down-scaled profiles in the model = the design-level "
+    "side of the known finding; the relative-threshold design holds) and 'reproduced exactly when random_state is set' (stream model; deviation 'marginal draws from the global stream' must "
+    "violate). The analytic / Monte-Carlo laws are exploration-strength: transformation pairs on a 14x14 (40x40) log lattice over (1e-3,1e2), Windmeier / non-zero EW models fitted to dataset A "
+    "and seeded perturbations: RoundTrip, JacobianIsDet, PushForward, MassOne, CdfMatchesEmpirical, SamplesAreInverseImages, conditional sample/cdf/icdf of Tz given Hs against the exact law "
+    "at Hs-quantiles 0.5...0.9999, transformed IFORM points against exact cdf values within the DKW radius, Reproducible, SeedMatters.",
+    "TLC; exact conditional law from the base model's conditional steepness distribution; central differences; Simpson rule; hook event cond_sample_support; known finding: tail truncation at extreme conditioning values",
+    "DESIGN.md §4 C16")
 
 NOT_YET = {}
 
